@@ -12,6 +12,7 @@ Dev(i, d, what) == IF d \in KnownDevs THEN Report(i, "DEVIATION", d)
 
 Judge(e, i) ==
     IF e.status # "ok" THEN Report(i, "SKIP", e.status)            \* Err, panic or warnings: the property does not apply
+    ELSE IF e.parsed /\ ~e.submitted THEN Report(i, "SKIP", "contains an item with the shape of " \o e.quarantined_for \o ", whose derive output stops rustc; not among the files checked alone")
     ELSE IF ~e.parsed THEN Report(i, "MISMATCH", "warning-free output does not parse as Rust items: " \o e.detail)
     ELSE IF ~e.rustc_ok /\ e.unexplained # <<>> THEN Report(i, "MISMATCH", "warning-free output does not type-check: " \o e.unexplained[1])
     \* every rustc error of the case carries the signature (error text and item shape) of a recorded finding
